@@ -384,6 +384,9 @@ func (x *Exec) havocMods(st *State, ms *ModSet) {
 		// the callee may have read input: the ghost tape cursor moves forward
 		x.c.havocTpos(st, x.c.region(st, "$tpos"))
 	}
+	if ms.Writes {
+		x.c.havocOpos(st)
+	}
 	rs := make([]string, 0, len(ms.Regions))
 	for r := range ms.Regions {
 		rs = append(rs, r)
@@ -641,6 +644,18 @@ func (x *Exec) invoke(st *State, cc *ssa.CallCommon, recv Val, args []Val, pos t
 		c.assume(and(sx("<=", "0", n), sx("<=", n, sLen(p.S))))
 		c.assume(implies(sx("<", n, sLen(p.S)), not(eq(errv, "I_nil"))))
 		c.havocRegion(st, "$alloc")
+		// ghost output tape: the n accepted bytes are the next n bytes of the output
+		{
+			c.declareFun("gotape", []string{"Int"}, c.intSort(8))
+			r8, _ := c.elemRegion(types.Typ[types.Uint8])
+			arr := sx("select", c.region(st, r8), sRef(p.S))
+			opos := c.region(st, "$opos")
+			// (guarded by the path: two sibling paths may write different bytes at the same position)
+			c.assumeOnPath(fmt.Sprintf("(forall ((i Int)) (! (=> (and (<= 0 i) (< i %s)) (= (gotape (+ %s i)) (select %s (+ %s i)))) :pattern ((gotape (+ %s i)))))", n, opos, arr, sOff(p.S), opos))
+			st.cells["$opos"] = Val{S: c.def("opos", "Int", sx("+", opos, n))}
+			c.assume(sx("<=", sx("+", opos, n), tposMax))
+			c.note("ghost output tape: otape(k) is the k-th byte accepted by the underlying writers, opos() the number accepted so far (fewer than 2^62)")
+		}
 		// ghost: a failed write is remembered (C13)
 		st.cells["$wfault"] = Val{S: c.def("wf", "Bool", or(c.region(st, "$wfault"), not(eq(errv, "I_nil"))))}
 		c.note("trusted: io.Writer.Write obeys its interface contract (0<=n<=len(p), n<len(p) => err!=nil), does not modify p or the caller's private state")
